@@ -624,11 +624,25 @@ def getitem(eng, st, obj, k, node):
         if eng.feasible(s):
             yield s, ExcVal(KeyError, (k,), eng.where(s, node))
         return
-    if isinstance(c, dict) and not isinstance(k, SV):
+    if isinstance(c, dict) and not _has_sym(k):
         if k in c:
             yield st, c[k]
         else:
             yield st, ExcVal(KeyError, (k,), eng.where(st, node))
+        return
+    if isinstance(c, dict) and isinstance(k, tuple):
+        rest = []
+        for kk, vv in c.items():
+            r = equal(eng, st, k, kk)
+            if r is False or r is None:
+                continue
+            cond = zbool(r)
+            if eng.feasible(st, cond):
+                yield st.fork().assume(cond), vv
+            rest.append(z3.Not(cond))
+        s = st.assume(*rest)
+        if eng.feasible(s):
+            yield s, ExcVal(KeyError, (k,), eng.where(s, node))
         return
     if isinstance(c, dict) and isinstance(k, SEnum):
         for kk, vv in c.items():
@@ -652,6 +666,14 @@ def getitem(eng, st, obj, k, node):
         yield from eng.dunder(st, obj, "__getitem__", [k], node)
         return
     raise Unsupported(f"subscript of {c!r} with {k!r}")
+
+
+def _has_sym(k):
+    if isinstance(k, (SV, Loc)):
+        return True
+    if isinstance(k, tuple):
+        return any(_has_sym(x) for x in k)
+    return False
 
 
 def slice(eng, st, obj, lo, hi, step, node):
@@ -735,15 +757,16 @@ class IterView:
 
 # ----------------------------------------------------------------------------- constructors
 def make_set(eng, st, items, ordered=False):
+    if all(not isinstance(x, (SV, Loc)) for x in items):
+        yield st, st.alloc(CSet(items), "set")
+        return
     tk = None
     for x in items:
-        tk = type_of(x)
-        if tk is not None:
+        if isinstance(x, SV):
+            tk = type_of(x)
             break
-    if not items or tk is None or not all(isinstance(x, SV) or type_of(x) is not None for x in items):
-        if all(not isinstance(x, (SV, Loc)) for x in items):
-            yield st, st.alloc(CSet(items), "set")
-            return
+    if tk is None:
+        raise Unsupported("set literal with non-describable symbolic elements")
     s = SSet.empty(tk, ordered)
     loc = st.alloc(s, "set")
     def go(i, s0):
@@ -954,6 +977,13 @@ def container_call(eng, st, target, name, args, kwargs, node=None):
             upd(st, CSet(c.items | {args[0]}))
             yield st, None
             return
+        if name == "add" and isinstance(args[0], SV) and type_of(args[0]) is not None:
+            r = SSet.empty(type_of(args[0]))
+            for x in c.items:
+                r = r.add(x)
+            upd(st, r.add(args[0]))
+            yield st, None
+            return
         raise Unsupported(f"CSet method {name}")
     # ---- sequences
     if isinstance(c, CList):
@@ -1130,6 +1160,8 @@ def _len(eng, st, args, kw, node):
             if c.keys is None:
                 raise Unsupported("len of unordered symbolic map/set")
             yield s, c.keys.length()
+        elif isinstance(c, (FSet, PendingEmpty)):
+            yield from container_call(eng, s, v, "__len__", [], {}, node)
         else:
             yield from eng.dunder(s, v, "__len__", [], node)
 
@@ -1486,7 +1518,7 @@ def container_call(eng, st, target, name, args, kwargs, node=None):  # noqa: F81
     if isinstance(c, PendingEmpty) and isinstance(target, Loc):
         # first use fixes the representation
         if c.kind == "set":
-            if name == "add" and not isinstance(args[0], (SV, Loc)) and type_of(args[0]) is None:
+            if name == "add" and not isinstance(args[0], (SV, Loc)):
                 st.store(target, CSet(()))
             elif name in ("add",):
                 st.store(target, SSet.empty(type_of(args[0]), ordered=False))
@@ -1942,3 +1974,263 @@ class QuantSeqSeq(SSeq, QuantSeq):
     def __init__(self, te, arr, n, j, elem, cond):
         SSeq.__init__(self, te, arr, n)
         self.j, self.elem, self.cond = j, elem, cond
+
+
+# ------------------------------------------------------------------ finite-universe sets
+class Guarded:
+    """an iteration item that is present only under `guard`"""
+    __slots__ = ("value", "guard")
+
+    def __init__(self, value, guard):
+        self.value, self.guard = value, guard
+
+
+class FSet(SV):
+    """subset of a finite *concrete* universe with symbolic membership bits (P(fin) proofs)"""
+    __slots__ = ("universe", "mem")
+
+    def __init__(self, universe, mem):
+        self.universe = tuple(universe)
+        self.mem = dict(mem)
+
+    @staticmethod
+    def fresh(universe, name):
+        return FSet(universe, {u: z3.Bool(fresh_name(f"{name}[{u}]")) for u in universe})
+
+    @staticmethod
+    def of(universe, items):
+        items = set(items)
+        return FSet(universe, {u: z3.BoolVal(u in items) for u in universe})
+
+    def bit(self, x):
+        return self.mem.get(x, z3.BoolVal(False))
+
+    def map2(self, o, f):
+        return FSet(self.universe, {u: z3.simplify(f(self.mem[u], o.bit(u))) for u in self.universe})
+
+    def eq(self, o):
+        return z3.And([self.mem[u] == o.bit(u) for u in self.universe] +
+                      [z3.Not(o.mem[u]) for u in getattr(o, "universe", ()) if u not in self.mem])
+
+    def subset(self, o):
+        return z3.And([z3.Implies(self.mem[u], o.bit(u)) for u in self.universe])
+
+
+def _as_fset(eng, st, v, like):
+    c = eng.deref(st, v)
+    if isinstance(c, FSet):
+        return c
+    if isinstance(c, CSet):
+        return FSet.of(like.universe, c.items)
+    if isinstance(c, PendingEmpty):
+        return FSet.of(like.universe, ())
+    if isinstance(c, (set, frozenset, list, tuple)):
+        return FSet.of(like.universe, c)
+    if isinstance(c, CList):
+        return FSet.of(like.universe, c.items)
+    raise Unsupported(f"cannot view {c!r} as finite-universe set")
+
+
+def fset_call(eng, st, target, c, name, args, kwargs, node):
+    isloc = isinstance(target, Loc)
+
+    def upd(newc):
+        if not isloc:
+            raise Unsupported(f"mutation {name} of immutable FSet")
+        st.store(target, newc)
+    if name == "copy":
+        yield st, st.alloc(c, "set")
+    elif name in ("add", "discard", "remove"):
+        x = args[0]
+        if isinstance(x, (SV, Loc)):
+            raise Unsupported("symbolic element for finite-universe set")
+        if x not in c.mem:
+            if name == "add":
+                raise Unsupported(f"element {x!r} outside the finite universe")
+            if name == "remove":
+                yield st, ExcVal(KeyError, (x,), "")
+                return
+            yield st, None
+            return
+        if name == "remove":
+            for s, present in eng.branch(st, c.mem[x], "remove"):
+                if present:
+                    m = dict(c.mem)
+                    m[x] = z3.BoolVal(False)
+                    s.store(target, FSet(c.universe, m))
+                    yield s, None
+                else:
+                    yield s, ExcVal(KeyError, (x,), "")
+            return
+        m = dict(c.mem)
+        m[x] = z3.BoolVal(name == "add")
+        upd(FSet(c.universe, m))
+        yield st, None
+    elif name in ("update", "difference_update", "intersection_update"):
+        o = _as_fset(eng, st, args[0], c)
+        f = {"update": z3.Or, "difference_update": lambda a, b: z3.And(a, z3.Not(b)),
+             "intersection_update": z3.And}[name]
+        upd(c.map2(o, f))
+        yield st, None
+    elif name in ("union", "intersection", "difference"):
+        o = _as_fset(eng, st, args[0], c)
+        f = {"union": z3.Or, "difference": lambda a, b: z3.And(a, z3.Not(b)), "intersection": z3.And}[name]
+        yield st, st.alloc(c.map2(o, f), "set")
+    elif name == "issubset":
+        yield st, SBool(c.subset(_as_fset(eng, st, args[0], c)))
+    elif name == "issuperset":
+        yield st, SBool(_as_fset(eng, st, args[0], c).subset(c))
+    elif name == "__len__":
+        yield st, SInt(z3.Sum([z3.If(b, 1, 0) for b in c.mem.values()]))
+    else:
+        raise Unsupported(f"FSet method {name}")
+
+
+_cc2 = container_call
+
+
+def container_call(eng, st, target, name, args, kwargs, node=None):  # noqa: F811
+    c = eng.deref(st, target)
+    if isinstance(c, FSet):
+        yield from fset_call(eng, st, target, c, name, args, kwargs, node)
+        return
+    if isinstance(c, (CSet, PendingEmpty)) and args and isinstance(eng.deref(st, args[0]), FSet) and \
+            name in ("union", "intersection", "difference", "issubset", "issuperset", "update",
+                     "intersection_update", "difference_update"):
+        like = eng.deref(st, args[0])
+        st.store(target, _as_fset(eng, st, c, like)) if name.endswith("update") and isinstance(target, Loc) else None
+        yield from fset_call(eng, st, target, _as_fset(eng, st, c, like), name, args, kwargs, node)
+        return
+    if isinstance(c, CSet):
+        if name == "copy":
+            yield st, st.alloc(CSet(c.items), "set")
+            return
+        if name in ("update", "union") and not isinstance(eng.deref(st, args[0]), SV):
+            o = eng.deref(st, args[0])
+            items = o.items if isinstance(o, (CSet, CList)) else (() if isinstance(o, PendingEmpty) else tuple(o))
+            r = CSet(c.items | frozenset(items))
+            if name == "update":
+                st.store(target, r)
+                yield st, None
+            else:
+                yield st, st.alloc(r, "set")
+            return
+        if name == "__len__":
+            yield st, len(c.items)
+            return
+    yield from _cc2(eng, st, target, name, args, kwargs, node)
+
+
+_contains2 = contains
+
+
+def contains(eng, st, cont, x, node=None):  # noqa: F811
+    c = eng.deref(st, cont)
+    if isinstance(c, FSet):
+        if isinstance(x, (SV, Loc)):
+            raise Unsupported("symbolic element tested against finite-universe set")
+        b = z3.simplify(c.bit(x))
+        yield st, (True if z3.is_true(b) else False if z3.is_false(b) else SBool(b))
+        return
+    yield from _contains2(eng, st, cont, x, node)
+
+
+_iterate2 = iterate
+
+
+def iterate(eng, st, v):  # noqa: F811
+    c = eng.deref(st, v)
+    if isinstance(c, FSet):
+        items = []
+        for u in c.universe:
+            b = z3.simplify(c.mem[u])
+            if z3.is_false(b):
+                continue
+            items.append(u if z3.is_true(b) else Guarded(u, b))
+        yield st, items
+        return
+    yield from _iterate2(eng, st, v)
+
+
+_equal2 = equal
+
+
+def equal(eng, st, a, b):  # noqa: F811
+    ca, cb = (eng.deref(st, a) if eng is not None else a), (eng.deref(st, b) if eng is not None else b)
+    if isinstance(ca, FSet) or isinstance(cb, FSet):
+        f = ca if isinstance(ca, FSet) else cb
+        o = cb if f is ca else ca
+        try:
+            return SBool(f.eq(_as_fset(eng, st, o, f)))
+        except Unsupported:
+            return False
+    if isinstance(ca, (CSet, PendingEmpty)) and isinstance(cb, (CSet, PendingEmpty)):
+        ia = ca.items if isinstance(ca, CSet) else frozenset()
+        ib = cb.items if isinstance(cb, CSet) else frozenset()
+        return ia == ib
+    return _equal2(eng, st, a, b)
+
+
+_set2 = _handlers[set]
+
+
+def _set_fset(eng, st, args, kw, node):
+    if args and isinstance(eng.deref(st, args[0]), FSet):
+        yield st, st.alloc(eng.deref(st, args[0]), "set")
+        return
+    yield from _set2(eng, st, args, kw, node)
+
+
+_handlers[set] = _set_fset
+_handlers[frozenset] = _set_fset
+
+
+@builtin(map)
+def _map(eng, st, args, kw, node):
+    f = args[0]
+    if len(args) != 2:
+        raise Unsupported("map with several iterables")
+    for s, items in iterate(eng, st, args[1]):
+        if not isinstance(items, list):
+            raise Unsupported("map over symbolic-length sequence")
+
+        def go(i, s0, acc):
+            if i == len(items):
+                yield s0, tuple(acc)
+                return
+            it = items[i]
+            g = it.guard if isinstance(it, Guarded) else None
+            for s1, r in eng.call(s0, f, [it.value if g is not None else it], {}, node):
+                if isinstance(r, ExcVal):
+                    yield s1, r
+                    return
+                yield from go(i + 1, s1, acc + [Guarded(r, g) if g is not None else r])
+        yield from go(0, s, [])
+
+
+_sum2 = _handlers[sum]
+
+
+def _sum_guarded(eng, st, args, kw, node):
+    c = eng.deref(st, args[0])
+    if isinstance(c, tuple) and any(isinstance(x, Guarded) for x in c):
+        acc = args[1] if len(args) > 1 else 0
+        terms = []
+        for x in c:
+            if isinstance(x, Guarded):
+                terms.append(z3.If(x.guard, zint(x.value), 0))
+            else:
+                terms.append(zint(x))
+        yield st, SInt(zint(acc) + z3.Sum(terms))
+        return
+    yield from _sum2(eng, st, args, kw, node)
+
+
+_handlers[sum] = _sum_guarded
+
+import functools as _functools
+
+
+def lru_unwrap(f):
+    """functools.lru_cache wrappers are transparent: the wrapped real function is executed"""
+    return getattr(f, "__wrapped__", None)
